@@ -3,6 +3,7 @@ from .. import rules_alias as RA
 from .. import rules_flow as RF
 from .c13 import P1_EXEMPT
 from .. import rules_inst as RI
+from .. import rules_tree as RT
 
 ID = "C08"
 EXPLANATION = (
@@ -36,3 +37,5 @@ def run(ctx, rep):
     rep.run(RF.rule_no_shared_state, ctx, rep, "N6", packages=("gtwrap/interface_parser", "gtwrap/template_instantiator"))
     # "pass through unchanged ... in their original scope": nothing that existed before is modified in place
     rep.run(RA.rule_mutate_only_fresh, ctx, rep, "N7", "gtwrap/template_instantiator", P1_EXEMPT, min_sites=20)
+    rep.run(RT.rule_no_reorder, ctx, rep, "N8")
+    rep.run(RT.rule_lists_kept_whole, ctx, rep, "N8")
